@@ -25,12 +25,15 @@ def c03(pid, tier, seed, scratch):
         wd = os.path.join(scratch, f"p{h}")
         os.makedirs(wd, exist_ok=True)
         hseed = seed * 1000 + 300 + h
+        wrap = h == n_hist - 1  # small incompressible records + frequent commits: the log wraps
         try:
-            rec = X.record(bindir, hseed, ops, wd)
+            rec = X.record(bindir, hseed, 40 if wrap else ops, wd, profile="wrap" if wrap else "crash")
         except C.Inconclusive as e:
             rep["inconclusive"].append({"case": f"history {hseed}", "reason": str(e)[:300]})
             continue
         K._count(rep, "histories")
+        K._count(rep, "log_wraps_in_histories", X.count_wraps(rec["states"]))
+        K._count(rep, "log_growths_in_histories", X.count_growths(rec["states"]))
         imgs = []
         for img in X.power_loss_images(rec, rng, per_point=per_point, max_points=max_points):
             imgs.append(img)
@@ -56,7 +59,7 @@ def c03(pid, tier, seed, scratch):
             fault_family = img["fault"].split("+")[0]
             key = K._key("C03", verdict, img["ctx"]) + (":synced-state" if fault_family in ("none-survive",) else "")
             K._violation(rep, key, f"history seed {hseed}, power loss after event {img['k']}, fault '{img['fault']}' ({img['unsynced']} un-synced events): {verdict[1]}",
-                         {"mode": "crash", "property": "C03", "seed": hseed, "ops": ops, "event_index": img["k"], "fault": img["fault"], "ctx": img["ctx"]})
+                         {"mode": "crash", "property": "C03", "seed": hseed, "ops": 40 if wrap else ops, "profile": "wrap" if wrap else "crash", "event_index": img["k"], "fault": img["fault"], "ctx": img["ctx"]})
         if len(rep["samples"]) < 2 and imgs:
             i = imgs[len(imgs) // 2]
             rep["samples"].append({"history_seed": hseed, "images": len(imgs), "example": {"event": i["k"], "ctx": i["ctx"], "fault": i["fault"], "unsynced_events": i["unsynced"]}})
